@@ -461,7 +461,7 @@ package oauth2
 //@   requires c != nil && ar != nil && resp != nil && ar.GetSession() != nil && ar.GetClient() != nil
 //@   modifies code_exists, code_active, code_rid, code_client, code_req, stored, faults, tx_escaped, ar.GetSession().GetExpiresAt(fosite.AuthorizeCode), ar.GetRequestForm(), mapof(resp.GetParameters()), resp.GetCode(), ar.DidHandleAllResponseTypes()
 //@   ensures [C13.code-params] forall k string :: (k in resp.GetParameters()) ==> (old(k in resp.GetParameters()) || k == "code" || k == "state" || k == "scope")
-//@   ensures [C01.issue-touches-only-the-new-code] ar.GetID() == old(ar.GetID()) && (forall s string :: old(code_exists[s]) ==> code_exists[s] && code_active[s] == old(code_active[s]) && code_rid[s] == old(code_rid[s])) && (forall s string :: code_exists[s] && !old(code_exists[s]) ==> code_rid[s] == ar.GetID())
+//@   ensures [C01.issue-touches-only-the-new-code] ar.GetID() == old(ar.GetID()) && (forall s string :: old(code_exists[s]) ==> code_exists[s] && code_active[s] == old(code_active[s]) && code_rid[s] == old(code_rid[s]) && code_client[s] == old(code_client[s]) && code_req[s] == old(code_req[s])) && (forall s string :: code_exists[s] && !old(code_exists[s]) ==> code_rid[s] == ar.GetID())
 //@   assert @call(CreateAuthorizeCodeSession)#1 [C02.stored-code-keeps-redirect-uri] len(c.Config.GetSanitationWhiteList(ctx)) == 0 ==> formget($arg3.GetRequestForm(), "redirect_uri") == old(formget(ar.GetRequestForm(), "redirect_uri"))
 
 //@ func (*AuthorizeExplicitGrantHandler).HandleAuthorizeEndpointRequest
@@ -553,6 +553,7 @@ package oauth2
 //@   requires env != nil && code != nil && refresh != nil && revoke != nil && intro != nil && store != nil && implicit != nil
 //@   modifies everything
 //@   invariant loop#1 [C01.dead-grant-stays-dead] old(dead(sig0) && rid_unique(sig0)) ==> dead(sig0) && rid_unique(sig0)
+//@   invariant loop#1 [C02.stored-grant-immutable] old(code_exists[sig0]) ==> code_exists[sig0] && code_rid[sig0] == old(code_rid[sig0]) && code_client[sig0] == old(code_client[sig0]) && code_req[sig0] == old(code_req[sig0])
 //@   invariant loop#1 [C01.used-code-stays-used] old(code_exists[sig0] && !code_active[sig0]) ==> code_exists[sig0] && !code_active[sig0]
 //@   invariant loop#1 [C04.dead-family-stays-dead] old(deadrid(rid0)) ==> deadrid(rid0)
 //@   invariant loop#1 [C08.revoked-grant-stays-revoked] old(deadrid(rid0)) ==> deadrid(rid0)
